@@ -81,6 +81,14 @@ def _run_own(chk, S: Session):
                 r1.require(ok, f"{tfname} round trip", "unflatten_array(flatten_tree(x)) returns the coefficients in order", f"round trip gives {T.show(back, 4)}", where, cfg)
             except AnalysisError as e:
                 r1.fail(f"{tfname} round trip", f"unflatten_array cannot consume flatten_tree's layout: {e}", where, cfg)
+            if fam == "isotropic":
+                # one scalar per coefficient (standard deviations): flatten_tree_scalar / unflatten_array_scalar are mutually inverse
+                sc = [T.atom(f"sc{i}", array=True) for i in range(ncoef)]
+                try:
+                    back_s = call(it, method(it, tf, "unflatten_array_scalar"), call(it, method(it, tf, "flatten_tree_scalar"), sc))
+                    r1.require(back_s == sc or back_s is sc, f"{tfname} scalar round trip", "unflatten_array_scalar(flatten_tree_scalar(s)) returns the scalars in order", f"round trip gives {T.show(back_s, 4)}", where, cfg)
+                except AnalysisError as e:
+                    r1.unknown(f"{tfname} scalar round trip", str(e), where, cfg)
             if fam != "dense":
                 ul = tf.fields.get("unravel_leaf")
                 r1.require(isinstance(ul, T.Term) and ul.op == "unravel_of" and ul.args[0] is x[0], f"{tfname}.from_example", "leaf unravel taken from the first depth-one leaf", f"{T.show(ul, 2)}", where, cfg)
